@@ -564,7 +564,7 @@ func runC19(x *X) *Violation {
 		if op.Kind == "parse" {
 			inputGo = RenameKeys(root, op.Input, "").ToGo()
 		}
-		key := op.Kind + "|" + op.Front + "|" + op.Input.String() + "|" + fmt.Sprint(op.Opts)
+		key := op.Kind + "|" + op.Front + "|" + op.Input.String() + "|" + fmt.Sprint(op.Opts, op.Rev)
 		if op.IO != nil {
 			key += "|" + op.IO.Method + "|" + op.IO.CT + "|" + fmt.Sprint(op.IO.QueryIn != nil, op.IO.Chunk)
 		}
